@@ -120,4 +120,58 @@ def fired : List Event → List Entry
   | Event.integrate _ :: tr => fired tr
   | Event.fire e _ :: tr => e :: fired tr
 
+/-! ### Specification-level (still executable) functions used by the C20 theorems -/
+
+/-- The queue entries `addAll` creates from a callback's children when the counter stands at `c`. -/
+def mkEntries (c : Nat) : List (Rat × Nat) → List Entry
+  | [] => []
+  | (time, id) :: rest => ⟨time, c, id⟩ :: mkEntries (c + 1) rest
+
+/-- Every entry created by the callbacks of the executed list `l` (in execution order), with the
+counters the model hands out when the counter stands at `c` before the first of them runs. -/
+def spawned (kids : Entry → List (Rat × Nat)) (c : Nat) : List Entry → List Entry
+  | [] => []
+  | e :: es => mkEntries c (kids e) ++ spawned kids (c + (kids e).length) es
+
+/-- Total number of children scheduled by the executed list. -/
+def nKids (kids : Entry → List (Rat × Nat)) (l : List Entry) : Nat :=
+  (l.map (fun e => (kids e).length)).sum
+
+/-- The integration intervals `(start, end)` of a trace that begins with the clock at `t`. -/
+def intervals : Rat → List Event → List (Rat × Rat)
+  | _, [] => []
+  | t, Event.integrate dt :: tr => (t, t + dt) :: intervals (t + dt) tr
+  | t, Event.fire .. :: tr => intervals t tr
+
+/-- One call of the public interface. -/
+inductive Op where
+  | add (time : Rat) (id : Nat)
+  | evolve (T : Rat)
+deriving Repr, DecidableEq
+
+/-- A system together with its observable history: `hz` is the largest target an accepted
+`evolve_until` was given (the time the system has logically been evolved to), `trace` all events so
+far, `created` every queue entry ever created (by `add_callback` from outside or from a callback). -/
+structure Hist where
+  s : Sys
+  hz : Rat
+  trace : List Event
+  created : List Entry
+deriving Repr
+
+def hinit : Hist := { s := init, hz := 0, trace := [], created := [] }
+
+/-- One interface call on a history.  A refused (backwards) `evolve_until` changes nothing. -/
+def stepOp (kids : Entry → List (Rat × Nat)) (fuel : Nat) (h : Hist) : Op → Hist
+  | .add time id =>
+    { h with s := addCallback h.s time id, created := h.created ++ [⟨time, h.s.ctr, id⟩] }
+  | .evolve T =>
+    let r := evolveUntil kids fuel h.s T
+    if r.status = .backwards then h else
+    { s := r.s, hz := if h.hz < T then T else h.hz, trace := h.trace ++ r.trace,
+      created := h.created ++ spawned kids h.s.ctr (fired r.trace) }
+
+def runOps (kids : Entry → List (Rat × Nat)) (fuel : Nat) (h : Hist) (ops : List Op) : Hist :=
+  ops.foldl (stepOp kids fuel) h
+
 end HcipyVerif.Scheduler
